@@ -771,3 +771,25 @@ PROPS["E06"] = dict(
     rule="C13's seeded histories with b_set_source / b_strip_prefixes / add_token mixed in before into_sourcemap; distinct = distinct (call, state-relevant prefix); non-trivial = every call except set_file / set_debug_id",
     assumptions=COMMON_ASSUMPTIONS,
 )
+
+def _corrupt_e07(e):
+    o = e["out"]
+    if o.get("k") != "ok":
+        return False
+    o["ret"] += 1
+    return True
+
+PROPS["E07"] = dict(
+    level="exploration",
+    level_text="extension: SourceMapBuilder::load_local_source_contents against a model of the file system (LoadLocal.tla, as found): sources without contents whose interned name is local (no scheme) are candidates, the call returns the number of candidates, candidates whose file exists under the base directory ('.' / '..' resolved, '../' may leave it) receive the file's text",
+    level_note="beyond the listed properties; not registered in MANIFEST.json; names over a closed ASCII alphabet so that URL joining is path arithmetic",
+    technique="TLA+ as-found specification on top of the Builder machine, trace validation of real calls against real files in a scratch directory",
+    mc=[dict(module="MC_Builder", cfg="MC_Builder_quick.cfg", tiers=("quick", "thorough"), workers=4, gen=False)],
+    trace="Trace_E07",
+    selftest_include_free=True,
+    drive=dict(quick=dict(n=600, size=3), thorough=dict(n=12000, size=3)),
+    nontrivial=lambda e: e["out"].get("k") == "ok" and len(e["args"]["calls"]) >= 2,
+    corrupt=_corrupt_e07,
+    rule="seeded builders over 16 source names (relative, dotted, climbing, rooted, with schemes, empty) with given contents here and there, against a scratch directory holding a random subset of 6 files; distinct = distinct (calls, fs); non-trivial = at least 2 calls",
+    assumptions=COMMON_ASSUMPTIONS + ["the scratch directory under the system temp dir is writable; no file /no/such/root.js exists"],
+)
